@@ -38,7 +38,50 @@ def setup():
     engine.install_log_tap()
 
 
+def gen_ties(rng):
+    """Structured inputs with EXACT ties (found with the line-coverage probe: several branches of the alternative-step loop were
+    never reached by continuous random data): equal-magnitude gradient components, H a multiple of the identity / zero / a
+    rank-one ones-matrix, xopt = 0 or small integers, bounds placed exactly where the step meets the trust-region boundary
+    (delta/sqrt(k)), at the Cauchy point, or at small dyadic fractions of delta - so that a bound and the trust-region boundary, or
+    two bounds, are reached in the same step."""
+    n = int(rng.integers(1, 7))
+    delta = float(gen.pick(rng, [1.0, 0.5, 2.0, 4.0, 0.25, 1e-3, 3.0]))
+    sgn = rng.choice([-1.0, 1.0], size=n)
+    mag = float(gen.pick(rng, [1.0, 2.0, 0.5, 1e-3, 8.0]))
+    g = sgn * mag
+    if rng.random() < 0.3:
+        g[int(rng.integers(n))] *= 2.0
+    if rng.random() < 0.2:
+        g[int(rng.integers(n))] = 0.0
+    hk = int(rng.integers(0, 4))
+    if hk == 0:
+        H = np.zeros((n, n))
+    elif hk == 1:
+        H = np.eye(n) * float(gen.pick(rng, [1.0, 2.0, 0.5, mag / delta, 2 * mag / delta]))
+    elif hk == 2:
+        H = np.ones((n, n)) * float(gen.pick(rng, [1.0, 0.5, mag / delta]))
+    else:
+        H = -np.eye(n) * float(gen.pick(rng, [1.0, 0.5]))
+    xopt = np.zeros(n) if rng.random() < 0.6 else rng.integers(-3, 4, size=n).astype(float)
+    sl = xopt - 10.0 * delta
+    su = xopt + 10.0 * delta
+    k = int(rng.integers(1, n + 1))
+    cands = [delta / np.sqrt(k), delta / np.sqrt(n), delta, delta / 2, delta / 4, 0.0, delta * 0.75, mag / max(1e-300, abs(H[0, 0])) if H[0, 0] > 0 else delta / 8]
+    for j in range(n):
+        if rng.random() < 0.7:
+            c = float(gen.pick(rng, cands))
+            if g[j] > 0:
+                sl[j] = xopt[j] - c       # descent direction is -g: the lower bound is the one that matters
+            else:
+                su[j] = xopt[j] + c
+            if rng.random() < 0.2:
+                sl[j], su[j] = min(sl[j], xopt[j]), max(su[j], xopt[j])
+    return xopt, g, H, sl, su, delta, 6 + hk
+
+
 def gen_input(rng):
+    if rng.random() < 0.2:
+        return gen_ties(rng)
     n = int(rng.integers(1, 9))
     gs = 10.0 ** rng.integers(-3, 4)
     g = rng.normal(size=n) * gs
